@@ -58,6 +58,35 @@ def make_prog(rng, base=None, opts=None):
                         p["pkg"] = 1; changed = True
     prog["multi_var"] = rng.random() < 0.3
     prog["star"] = rng.random() < 0.5
+    # front-level variety: a provider with two parameters of one (separately written) type
+    allp = [p for s in spec.all_sets(tree) for p in s["providers"]]
+    if rng.random() < 0.04:
+        fp = [p for p in allp if not p["struct"] and p["args"]]
+        if fp:
+            p = rng.choice(fp); p["args"] = p["args"] + [rng.choice(p["args"])]
+            prog["defect"] += "+dup-param"
+    # extra tagged fields on struct-provided types
+    prog["extra_fields"] = {}
+    for p in allp:
+        if p["struct"] and rng.random() < 0.35:
+            k = p["outs"][0] // 2
+            if k in prog["extra_fields"]:
+                continue
+            tag = rng.choice(['wire:"-"', 'wire:"-"', 'firewire:"-"', 'json:"a" wire:"-"', 'wire:"-" json:"b"', 'json:"wire"', 'wire:"-,x"'])
+            cands = [a for a in p["args"]] + [t for t in prog["given"]]
+            ft = rng.choice(cands) if cands and rng.random() < 0.6 else None
+            if ft is None:
+                others = sorted(spec.all_types(tree, prog["given"], prog["out"]) if hasattr(spec, "all_types") else synth.all_types(tree, prog["given"], prog["out"]))
+                others = [t for t in others if t // 2 != k and kinds.get(t // 2) != "iface"]
+                if not others:
+                    continue
+                ft = rng.choice(others)
+            if kinds.get(ft // 2) == "iface" and ft % 2:
+                continue
+            name = "X%d" % p["id"]
+            prog["extra_fields"][k] = {"name": name, "t": ft, "tag": tag}
+            if prog["star"] and not Render.prevented(tag):
+                p["args"] = p["args"] + [ft]; p["fields"] = p["fields"] + [name]
     return prog
 
 
@@ -95,6 +124,9 @@ def renderable(prog):
             odd_iface.add(t)
     if odd_iface:
         return "pointer to interface"
+    for k, xf in (prog.get("extra_fields") or {}).items():
+        if xf["t"] % 2 == 0 and kinds.get(xf["t"] // 2) != "iface":
+            val_fields.setdefault(k, set()).add(xf["t"] // 2)
     # value-field recursion makes an invalid recursive Go type
     def cyc(k, seen):
         if k in seen:
@@ -172,6 +204,11 @@ class Render:
                 touch(b["iface"])
                 c = touch(b["conc"])
                 (c["ptrimpl"] if b["conc"] % 2 else c["impl"]).add(b["iface"] // 2)
+        for k, xf in (p.get("extra_fields") or {}).items():
+            td = touch(2 * k)
+            touch(xf["t"])
+            if xf["name"] not in {f["name"] for f in td["fields"]}:
+                td["fields"].append({"name": xf["name"], "t": xf["t"], "tag": xf["tag"], "sp": False})
         # interface types that are provided directly (function / value / argument) need an implementation
         for k, td in self.types.items():
             td["defimpl"] = td["kind"] == "iface"
@@ -257,9 +294,10 @@ class Render:
                 fields = self.types[k]["fields"]
                 allsp = [f["name"] for f in fields if not self.prevented(f["tag"])]
                 if self.p["star"] and allsp == pr["fields"]:
-                    out.append('wire.Struct(new(%s), "*")' % tq)
+                    pr["_lits"] = ['"*"']
                 else:
-                    out.append("wire.Struct(new(%s)%s)" % (tq, "".join(', "%s"' % f for f in pr["fields"])))
+                    pr["_lits"] = ['"%s"' % f for f in pr["fields"]]
+                out.append("wire.Struct(new(%s)%s)" % (tq, "".join(", " + l for l in pr["_lits"])))
             else:
                 out.append((q if pr["pkg"] == 1 else "") + "P%d" % pr["id"])
         for v in s["values"]:
@@ -434,13 +472,27 @@ def run_batch(progs, workdir, tag="b", want_run=True):
     root = os.path.join(workdir, "mod_" + tag)
     renders = write_module(root, progs)
     env = dict(GOENV)
-    p = sh([tools["wire"], "gen", "./..."], cwd=root, env=env, timeout=900)
-    per, loose = classify_stderr(p.stderr)
+    dropped = {}
+    for attempt in range(4):
+        p = sh([tools["wire"], "gen", "./..."], cwd=root, env=env, timeout=900)
+        per, loose = classify_stderr(p.stderr)
+        if p.returncode == 0 or per or "wrote" in p.stderr or "panic:" in p.stderr:
+            break
+        # the loader refused the whole invocation: some rendered package is not valid Go (harness defect,
+        # not Wire's); drop the packages named in the errors and try again
+        bad = set(int(x) for x in re.findall(r"/c(\d+)/", p.stderr))
+        if not bad:
+            raise RuntimeError("wire gen ./... failed without naming a package:\n" + p.stderr[-3000:])
+        for i in bad:
+            dropped[i] = "\n".join(l for l in p.stderr.split("\n") if ("/c%d/" % i) in l)[:600]
+            shutil.rmtree(os.path.join(root, "c%d" % i), ignore_errors=True)
     obs = []
     gens = []
     for i, r in enumerate(renders):
         gen = os.path.join(root, "c%d" % i, "app", "wire_gen.go")
         o = {"exit": p.returncode, "errors": per.get(r.apppath, []), "generated": os.path.exists(gen), "gen_path": gen}
+        if i in dropped:
+            o["invalid_go"] = dropped[i]
         obs.append(o)
         if o["generated"]:
             gens.append(gen)
